@@ -549,8 +549,39 @@ impl Gen {
         }
     }
 
+    /// Castling (whenever the side still has a right) or en passant (whenever a mark is
+    /// set and a pawn stands next to it) in a random form, whether or not it is legal right
+    /// now - the corners where an almost-legal special move must be refused.
+    fn special_attempt(&mut self, info: &Info) -> Option<MoveLike> {
+        let pos = &info.pos;
+        let mut cands: Vec<RMove> = Vec::new();
+        let (qi, ki, row) = if pos.white { (rm::WQ, rm::WK, 7u8) } else { (rm::BQ, rm::BK, 0u8) };
+        let king = rm::cell(pos.white, rm::K);
+        if pos.castling[ki] {
+            cands.push(RMove { kind: rm::K_CASTLE_K, cell: king, src: row * 8 + 4, dst: row * 8 + 6 });
+        }
+        if pos.castling[qi] {
+            cands.push(RMove { kind: rm::K_CASTLE_Q, cell: king, src: row * 8 + 4, dst: row * 8 + 2 });
+        }
+        cands.extend(info.pseudo.iter().copied().filter(|m| m.kind == rm::K_EP));
+        let m = *self.rng.pick(&cands)?;
+        let variant = self.rng.next_u64() as u32;
+        Some(match self.rng.below(5) {
+            0 => MoveLike::Move(m),
+            1 => MoveLike::UciStr(uci_text(&m)),
+            2 => MoveLike::UciMove { src: m.src, dst: m.dst, promo: None },
+            3 => MoveLike::SanMove { data: san_data_for(pos, &m, variant | 1), check: [0u8, 1, 3][self.rng.below(3)] },
+            _ => MoveLike::SanStr(render_san(&san_data_for(pos, &m, variant | 1), [0u8, 1, 3, 2][self.rng.below(4)], variant >> 8)),
+        })
+    }
+
     fn gen_push(&mut self, w: &mut World) -> Op {
         let info = w.info().clone();
+        if self.rng.chance(self.sw.special / 4 + 2) {
+            if let Some(ml) = self.special_attempt(&info) {
+                return Op::Push(ml);
+            }
+        }
         let want_fault = self.sw.faults_on
             && (self.rng.chance(self.sw.fault_pct) || (self.hot && self.rng.chance(self.sw.after_special)));
         if want_fault || info.legal.is_empty() {
@@ -805,6 +836,11 @@ impl Gen {
     }
 
     fn any_like(&mut self, info: &Info) -> MoveLike {
+        if self.rng.chance(self.sw.special / 4 + 2) {
+            if let Some(ml) = self.special_attempt(info) {
+                return ml;
+            }
+        }
         let fault = self.sw.faults_on && self.rng.chance(self.sw.fault_pct.max(15));
         if fault || info.legal.is_empty() {
             return self.faulty_like(info);
@@ -847,7 +883,7 @@ impl Gen {
             CAT_POP => Op::Pop,
             CAT_OUTCOME => self.gen_outcome(w, prop),
             CAT_FORK => Op::Fork,
-            CAT_EQ => Op::EqTwin(self.rng.below(5) as u8),
+            CAT_EQ => Op::EqTwin(self.rng.below(8) as u8),
             CAT_REBUILD_MOVES => Op::RebuildMoves,
             CAT_REBUILD_UCI => Op::RebuildUci,
             CAT_BOARD_MAKE => {
